@@ -173,20 +173,24 @@ def releaseAddress (m : Master) (address reserved : Nat) (w1 : Bool) : Master ×
     let (t', found) := releaseScan m.table address m.table
     ({ m with table := t' }, { ret := if found then 1 else 0 })
 
-/-- the body `update()` builds for a lookup frame -/
+/-- the body `update()` builds for a lookup frame that is long enough: a signed 16-bit value -/
 def lookupReply (m : Master) (msgT : Nat) (message : Bytes) : PyM Bytes :=
   if msgT = MESH_ADDR_LOOKUP then do
     let b ← pyGet message 0
-    packH (lookupAddress m b)
+    packSH (lookupAddress m b)
   else do
     let a ← unpackH (pySlice message 0 2)
-    bytes1 (lookupNodeId m a)
+    packSH (lookupNodeId m a)
+
+/-- `len(self.frame_buf.message) >= (1 if msg_t == MESH_ADDR_LOOKUP else 2)` -/
+def lookupLongEnough (msgT : Nat) (message : Bytes) : Bool :=
+  message.length ≥ (if msgT = MESH_ADDR_LOOKUP then 1 else 2)
 
 /-- the `if msg_t in (MESH_ADDR_LOOKUP, MESH_ID_LOOKUP): … elif msg_t == MESH_ADDR_RELEASE: …` part of
     `RF24Mesh.update()` on the master -/
 def updateDispatch (m : Master) (msgT fromNode reserved : Nat) (message : Bytes) (w1 : Bool) :
     Master × Res :=
-  if msgT = MESH_ADDR_LOOKUP ∨ msgT = MESH_ID_LOOKUP then
+  if (msgT = MESH_ADDR_LOOKUP ∨ msgT = MESH_ID_LOOKUP) ∧ lookupLongEnough msgT message then
     match lookupReply m msgT message with
     | .error e => (m, { exc := some e })
     | .ok msg =>
